@@ -17,6 +17,7 @@
 // lie in (w - 1 - d, w + d] with d = 1e-4*max covering the float/double rounding before the truncation.
 #include "c17.hpp"
 #include <ImathColorAlgo.h>
+#include <algorithm>
 #include <atomic>
 #include <limits>
 
@@ -283,6 +284,160 @@ template <class T> void int_color4 (const std::string& tn)
     R ().stage_done (std::to_string (AL.size ()) + " alpha values x 3 colours (alpha returned unchanged) + floor(k*max/8)^3 grid: Color4 overloads == Vec3 overloads, both directions");
 }
 
+// ---- integer element types: results that are exactly representable by construction ---------------------
+// Statement: "integer element types scale by their maximum". An integer colour x stands for x/max in the unit cube and
+// a result y of the conversion is returned as y*max. The window of int_ok ((w-1-d, w+d]) exists only because y*max is in
+// general not an integer and the statement does not say how the fraction is disposed of. Where the EXACT model result
+// is, by construction, 0, 1 or one of the input channels itself — no arithmetic other than the scaling and its inverse
+// is involved — y*max is an exact integer n ((x/max)*max = x, 0*max = 0, 1*max = max) and every way of disposing of
+// a fraction (truncation, rounding) returns n: the statement admits n only. These are (exact model, not the library's
+// formula):
+//   rgb2hsv(r,g,b), 0 <= r,g,b <= max:  value      = max(r,g,b)                          (every triple)
+//                                       saturation = 0    if r == g == b   (grey axis, black included)
+//                                                  = max  if min(r,g,b) == 0 < max(r,g,b)   ((mx-0)/mx = 1)
+//                                       hue        = 0    if r > g == b    ((g-b)/(mx-mn) = 0, red sector, no wrap)
+//   hsv2rgb(h,s,v):   s == 0   -> (v,v,v) for every h            (c = v*0 = 0, m = v)
+//                     v == 0   -> (0,0,0) for every h, s
+//                     s == max -> the channel that carries c+m in the hue's sector equals v (c = v*1, m = v-v = 0); the
+//                                 channel that carries m alone equals 0. The sector floor(6h/max) mod 6 is computed in
+//                                 integers; max is odd for every element type, so 6h/max can only be an EVEN integer at a
+//                                 sector boundary, and the two sectors meeting at an even boundary (5|0, 1|2, 3|4) carry
+//                                 c+m in the same channel: the max-channel demand holds for every hue, the min-channel
+//                                 demand is made strictly inside a sector and at h = 0 / h = max ((v,0,0)).
+// Everything else (hues 1/3, 2/3, mid channels, general saturations) is NOT in this class — 1/3 is not representable —
+// and stays with the window oracle of the other stages. Nothing is tuned: the oracle is equality.
+// Space: every non-negative value k of the 8- and 16-bit element types (int / unsigned int: all 2^j, 2^j +- 1, 0..64,
+// max-3..max, max/2 +- 1, max/3, max/5 and a prime-strided sweep) takes the role of the channel in question; the
+// other channels run over {0, 1, k/2, k-1, k} (rgb, so that k stays the maximum; k in each of the three positions),
+// the hue over 0, max, 1, max-1, one hue strictly inside each sector and k itself. Vec3 and Color4 overloads.
+template <class T> struct ExactSet
+{
+    static std::vector<long long> get (bool)
+    {
+        std::vector<long long> v;
+        for (long long a = 0; a <= (long long) std::numeric_limits<T>::max (); ++a) v.push_back (a);
+        return v;
+    }
+};
+template <class T> std::vector<long long> wide_exact_set (bool thorough)
+{
+    const long long        MX = (long long) std::numeric_limits<T>::max ();
+    std::vector<long long> v;
+    for (long long a = 0; a <= 64; ++a) v.push_back (a);
+    for (int j = 6; j < 33; ++j)
+        for (long long d = -1; d <= 1; ++d) { long long a = (1ll << j) + d; if (a <= MX) v.push_back (a); }
+    for (long long d = 0; d <= 3; ++d) v.push_back (MX - d);
+    v.push_back (MX / 2 - 1); v.push_back (MX / 2); v.push_back (MX / 2 + 1); v.push_back (MX / 3); v.push_back (MX / 5);
+    const long long n = thorough ? (1ll << 18) : (1ll << 12), stride = MX / n - ((MX / n) % 2 == 0 ? 1 : 0); // odd stride
+    for (long long i = 1; i <= n; ++i) v.push_back (i * stride - (i % 7));
+    std::sort (v.begin (), v.end ());
+    v.erase (std::unique (v.begin (), v.end ()), v.end ());
+    return v;
+}
+template <> struct ExactSet<int> { static std::vector<long long> get (bool t) { return wide_exact_set<int> (t); } };
+template <> struct ExactSet<unsigned int> { static std::vector<long long> get (bool t) { return wide_exact_set<unsigned int> (t); } };
+
+template <class T> void int_exact (const std::string& tn)
+{
+    if (!R ().stage ("color-exact-" + tn)) return;
+    typedef IM::Vec3<T>   V3;
+    typedef IM::Color4<T> C4;
+    const long long MX = (long long) std::numeric_limits<T>::max ();
+    static const int MAXCH[6] = {0, 1, 1, 2, 2, 0}, MINCH[6] = {2, 2, 0, 0, 1, 1};
+    const std::vector<long long> K = ExactSet<T>::get (R ().thorough ());
+    long long n = 0, tr = 0, c_val = 0, c_grey = 0, c_sat1 = 0, c_hue0 = 0, c_s0 = 0, c_black = 0, c_smax_in = 0, c_smax_edge = 0, c_smax_bound = 0, c_top = 0, c_sect[6] = {0, 0, 0, 0, 0, 0};
+    const std::string RS = "rgb2hsv<" + tn + ">.scaled.exactly-representable", RS4 = "rgb2hsv<Color4<" + tn + ">>.scaled.exactly-representable";
+    const std::string HS = "hsv2rgb<" + tn + ">.scaled.exactly-representable", HS4 = "hsv2rgb<Color4<" + tn + ">>.scaled.exactly-representable";
+    auto str = [&] (long long a, long long b, long long c) { return tn + " " + fmt (a) + " " + fmt (b) + " " + fmt (c); };
+    // one rgb triple: both overloads against the exactly representable components
+    auto rgb_case = [&] (long long r, long long g, long long b) {
+        const long long mx = std::max (r, std::max (g, b)), mn = std::min (r, std::min (g, b));
+        const T         al = (T) ((r * 7 + g * 13 + b * 29 + 5) % (MX + 1));
+        V3 hv = IM::rgb2hsv (V3 ((T) r, (T) g, (T) b));
+        C4 hc = IM::rgb2hsv (C4 ((T) r, (T) g, (T) b, al));
+        ++n; tr += 2; ++c_val;
+        const long long got3[3] = {(long long) hv.x, (long long) hv.y, (long long) hv.z}, got4[3] = {(long long) hc.r, (long long) hc.g, (long long) hc.b};
+        for (int o = 0; o < 2; ++o)
+        {
+            const long long*   got  = o ? got4 : got3;
+            const std::string& site = o ? RS4 : RS;
+            if (got[2] != mx) R ().fail (site, str (r, g, b) + " value (= the largest channel)", fmt (mx), fmt (got[2]));
+            if (mn == mx) { if (got[1] != 0) R ().fail (site, str (r, g, b) + " saturation (grey axis)", "0", fmt (got[1])); }
+            else if (mn == 0) { if (got[1] != MX) R ().fail (site, str (r, g, b) + " saturation (smallest channel 0)", fmt (MX), fmt (got[1])); }
+            if (r > g && g == b) { if (got[0] != 0) R ().fail (site, str (r, g, b) + " hue (r > g == b)", "0", fmt (got[0])); }
+        }
+        if (hc.a != al) R ().fail ("rgb2hsv<Color4<" + tn + ">>.alpha", str (r, g, b) + " alpha " + fmt ((long long) al), fmt ((long long) al), fmt ((long long) hc.a));
+        if (mn == mx) ++c_grey; else if (mn == 0) ++c_sat1;
+        if (r > g && g == b) ++c_hue0;
+    };
+    // one hsv triple of the class s == 0, v == 0 or s == max
+    auto hsv_case = [&] (long long h, long long s, long long v) {
+        const T al = (T) ((h * 3 + s * 11 + v * 17 + 1) % (MX + 1));
+        V3 rv = IM::hsv2rgb (V3 ((T) h, (T) s, (T) v));
+        C4 rc = IM::hsv2rgb (C4 ((T) h, (T) s, (T) v, al));
+        ++n; tr += 2;
+        const long long got3[3] = {(long long) rv.x, (long long) rv.y, (long long) rv.z}, got4[3] = {(long long) rc.r, (long long) rc.g, (long long) rc.b};
+        // 6h/max in integers (6*max < 2^35)
+        const long long six = 6 * h, sect = (six / MX) % 6;
+        const bool      bound = six % MX == 0, edge = (h == 0 || h == MX);
+        for (int o = 0; o < 2; ++o)
+        {
+            const long long*   got  = o ? got4 : got3;
+            const std::string& site = o ? HS4 : HS;
+            const std::string  g3   = fmt (got[0]) + " " + fmt (got[1]) + " " + fmt (got[2]);
+            if (v == 0) { if (got[0] != 0 || got[1] != 0 || got[2] != 0) R ().fail (site, str (h, s, v) + " (value 0)", "0 0 0", g3); }
+            else if (s == 0) { if (got[0] != v || got[1] != v || got[2] != v) R ().fail (site, str (h, s, v) + " (saturation 0)", fmt (v) + " " + fmt (v) + " " + fmt (v), g3); }
+            else if (s == MX)
+            {
+                if (got[MAXCH[sect]] != v) R ().fail (site, str (h, s, v) + " (saturation max) channel " + fmt (MAXCH[sect]), fmt (v), g3);
+                if (edge) { if (got[1] != 0 || got[2] != 0) R ().fail (site, str (h, s, v) + " (saturation max, hue 0)", fmt (v) + " 0 0", g3); }
+                else if (!bound) { if (got[MINCH[sect]] != 0) R ().fail (site, str (h, s, v) + " (saturation max) channel " + fmt (MINCH[sect]), "0", g3); }
+            }
+        }
+        if (rc.a != al) R ().fail ("hsv2rgb<Color4<" + tn + ">>.alpha", str (h, s, v) + " alpha " + fmt ((long long) al), fmt ((long long) al), fmt ((long long) rc.a));
+        if (v == 0) ++c_black;
+        else if (s == 0) ++c_s0;
+        else if (s == MX) { if (edge) ++c_smax_edge; else if (bound) ++c_smax_bound; else { ++c_smax_in; ++c_sect[sect]; } }
+    };
+    // hues: 0, max, 1, max-1 and one strictly inside each sector ((2j+1)*max/12 is never on a boundary: max is odd)
+    std::vector<long long> H = {0, MX, 1, MX - 1, MX / 3, 2 * (MX / 3)};
+    for (int j = 0; j < 6; ++j) H.push_back ((2 * j + 1) * MX / 12);
+    const long long V[4] = {1, MX / 2, MX - 1, MX};
+    for (long long k : K)
+    {
+        if (k == MX) ++c_top;
+        // ---- rgb: k is the largest channel, in each position; the other two from {0,1,k/2,k-1,k}
+        long long O[5] = {0, 1, k / 2, k - 1, k};
+        std::vector<long long> others;
+        for (long long o : O) if (o >= 0 && o <= k && std::find (others.begin (), others.end (), o) == others.end ()) others.push_back (o);
+        for (long long o1 : others)
+            for (long long o2 : others)
+            {
+                rgb_case (k, o1, o2);
+                if (o1 != k || o2 != k) { rgb_case (o1, k, o2); rgb_case (o1, o2, k); }
+            }
+        // ---- hsv: k as the value (s = 0, s = max over the hue set), as the hue (s = 0, s = max over 4 values) and as the
+        //      saturation of black
+        for (long long h : H) { hsv_case (h, 0, k); hsv_case (h, MX, k); hsv_case (h, k, 0); }
+        for (long long v : V) { hsv_case (k, 0, v); hsv_case (k, MX, v); }
+    }
+    R ().cls ("color-exact." + tn + ".rgb.value-is-largest-channel", c_val);
+    R ().cls ("color-exact." + tn + ".rgb.grey-axis(saturation 0)", c_grey);
+    R ().cls ("color-exact." + tn + ".rgb.smallest-channel-0(saturation max)", c_sat1);
+    R ().cls ("color-exact." + tn + ".rgb.r>g==b(hue 0)", c_hue0);
+    R ().cls ("color-exact." + tn + ".hsv.saturation-0", c_s0);
+    R ().cls ("color-exact." + tn + ".hsv.value-0", c_black);
+    R ().cls ("color-exact." + tn + ".hsv.saturation-max.hue-0-or-max", c_smax_edge);
+    R ().cls ("color-exact." + tn + ".hsv.saturation-max.hue-inside-a-sector", c_smax_in);
+    for (int j = 0; j < 6; ++j) R ().cls ("color-exact." + tn + ".hsv.saturation-max.sector" + std::to_string (j), c_sect[j]);
+    R ().cls ("color-exact." + tn + ".channel-value-equals-type-max", c_top);
+    R ().add ("color-exact." + tn + ".hsv.saturation-max.hue-on-even-sector-boundary", c_smax_bound);
+    R ().add ("states", n); R ().add ("evaluations", n); R ().add ("transitions", tr);
+    R ().stage_done (std::to_string (K.size ()) + " channel values (" + (sizeof (T) <= 2 ? "every non-negative value of the type" : "2^j, 2^j+-1, 0..64, max-3..max, max/2+-1, max/3, max/5, odd-strided sweep") +
+                     ") x {rgb with that value largest in each position x others {0,1,k/2,k-1,k}; hsv with s = 0, s = max, v = 0 over 12 hues and as the hue x 4 values}: "
+                     "components that are 0, max or an input channel by construction returned EXACTLY, Vec3 and Color4 overloads");
+}
+
 // ---- ALL 2^24 unsigned-char triples --------------------------------------------------------------------
 // (1) Vec3<unsigned char> against the long-double model scaled by 255 and truncated (the same oracle as the 9^3 grid:
 //     covers hues that are not multiples of 1/8, the neighbourhood of every sector boundary, every saturation);
@@ -295,11 +450,11 @@ void uchar_all ()
     typedef IM::Vec3<T>   V3;
     typedef IM::Color4<T> C4;
     const LD                MX = 255;
-    std::atomic<long long>  done (0), c_grey (0), c_negh (0), c_wrap (0), c_sect[6], c_satmax (0);
+    std::atomic<long long>  done (0), c_grey (0), c_negh (0), c_wrap (0), c_sect[6], c_satmax (0), c_sat1 (0), c_hue0 (0), c_sat0 (0);
     for (auto& c : c_sect) c = 0;
     auto s3 = [] (int a, int b, int c) { return std::string ("unsigned char ") + fmt (a) + " " + fmt (b) + " " + fmt (c); };
     bool complete = parallel_chunks (1ull << 24, 1ull << 16, [&] (uint64_t lo, uint64_t hi, unsigned) {
-        long long grey = 0, negh = 0, wrap = 0, sect[6] = {0, 0, 0, 0, 0, 0}, satmax = 0;
+        long long grey = 0, negh = 0, wrap = 0, sect[6] = {0, 0, 0, 0, 0, 0}, satmax = 0, sat1 = 0, hue0 = 0, sat0 = 0;
         for (uint64_t i = lo; i < hi; ++i)
         {
             const int a = (int) (i >> 16), b = (int) ((i >> 8) & 255), c = (int) (i & 255);
@@ -315,6 +470,15 @@ void uchar_all ()
             if (!(int_ok<T> (hv.x, wh.a) || wh.b == 0)) R ().fail ("rgb2hsv<unsigned char>.scaled.all-triples", s3 (a, b, c) + " hue", fmt (wh.a * MX), fmt ((int) hv.x));
             if (!int_ok<T> (hv.y, wh.b)) R ().fail ("rgb2hsv<unsigned char>.scaled.all-triples", s3 (a, b, c) + " saturation", fmt (wh.b * MX), fmt ((int) hv.y));
             if (!int_ok<T> (hv.z, wh.c)) R ().fail ("rgb2hsv<unsigned char>.scaled.all-triples", s3 (a, b, c) + " value", fmt (wh.c * MX), fmt ((int) hv.z));
+            // exactly representable components (see int_exact): value = largest channel; saturation 0 on the grey axis, 255
+            // when the smallest channel is 0; hue 0 for r > g == b — equality, for every one of the 2^24 triples
+            {
+                const int mx = std::max (a, std::max (b, c)), mn = std::min (a, std::min (b, c));
+                if ((int) hv.z != mx) R ().fail ("rgb2hsv<unsigned char>.scaled.exactly-representable", s3 (a, b, c) + " value (= the largest channel)", fmt (mx), fmt ((int) hv.z));
+                if (mn == mx) { if (hv.y != 0) R ().fail ("rgb2hsv<unsigned char>.scaled.exactly-representable", s3 (a, b, c) + " saturation (grey axis)", "0", fmt ((int) hv.y)); }
+                else if (mn == 0) { ++sat1; if (hv.y != 255) R ().fail ("rgb2hsv<unsigned char>.scaled.exactly-representable", s3 (a, b, c) + " saturation (smallest channel 0)", "255", fmt ((int) hv.y)); }
+                if (a > b && b == c) { ++hue0; if (hv.x != 0) R ().fail ("rgb2hsv<unsigned char>.scaled.exactly-representable", s3 (a, b, c) + " hue (r > g == b)", "0", fmt ((int) hv.x)); }
+            }
             C4 hc = IM::rgb2hsv (q);
             if (hc.r != hv.x || hc.g != hv.y || hc.b != hv.z)
                 R ().fail ("rgb2hsv<Color4<unsigned char>>.vs-Vec3", s3 (a, b, c), fmt ((int) hv.x) + " " + fmt ((int) hv.y) + " " + fmt ((int) hv.z), fmt ((int) hc.r) + " " + fmt ((int) hc.g) + " " + fmt ((int) hc.b));
@@ -326,19 +490,35 @@ void uchar_all ()
             if (b == 255) ++satmax;
             if (!int_ok<T> (rv.x, wr.a) || !int_ok<T> (rv.y, wr.b) || !int_ok<T> (rv.z, wr.c))
                 R ().fail ("hsv2rgb<unsigned char>.scaled.all-triples", s3 (a, b, c), std::string (Msg () << wr.a * MX << " " << wr.b * MX << " " << wr.c * MX), fmt ((int) rv.x) + " " + fmt ((int) rv.y) + " " + fmt ((int) rv.z));
+            // exactly representable results (see int_exact): v = 0 -> black; s = 0 -> (v,v,v); s = 255 -> the sector's c+m
+            // channel equals v (sector in integers; 255 is odd, so a boundary 6h/255 is even and both neighbours agree)
+            {
+                static const int MAXCH[6] = {0, 1, 1, 2, 2, 0};
+                const std::string g3 = fmt ((int) rv.x) + " " + fmt ((int) rv.y) + " " + fmt ((int) rv.z);
+                if (c == 0) { if (rv.x != 0 || rv.y != 0 || rv.z != 0) R ().fail ("hsv2rgb<unsigned char>.scaled.exactly-representable", s3 (a, b, c) + " (value 0)", "0 0 0", g3); }
+                else if (b == 0) { ++sat0; if (rv.x != c || rv.y != c || rv.z != c) R ().fail ("hsv2rgb<unsigned char>.scaled.exactly-representable", s3 (a, b, c) + " (saturation 0)", fmt (c) + " " + fmt (c) + " " + fmt (c), g3); }
+                else if (b == 255)
+                {
+                    const int ch = MAXCH[((6 * a) / 255) % 6];
+                    const int got[3] = {rv.x, rv.y, rv.z};
+                    if (got[ch] != c) R ().fail ("hsv2rgb<unsigned char>.scaled.exactly-representable", s3 (a, b, c) + " (saturation max) channel " + fmt (ch), fmt (c), g3);
+                }
+            }
             C4 rc = IM::hsv2rgb (q);
             if (rc.r != rv.x || rc.g != rv.y || rc.b != rv.z)
                 R ().fail ("hsv2rgb<Color4<unsigned char>>.vs-Vec3", s3 (a, b, c), fmt ((int) rv.x) + " " + fmt ((int) rv.y) + " " + fmt ((int) rv.z), fmt ((int) rc.r) + " " + fmt ((int) rc.g) + " " + fmt ((int) rc.b));
             if (rc.a != al) R ().fail ("hsv2rgb<Color4<unsigned char>>.alpha", s3 (a, b, c) + " alpha " + fmt ((int) al), fmt ((int) al), fmt ((int) rc.a));
         }
-        done += (long long) (hi - lo); c_grey += grey; c_negh += negh; c_wrap += wrap; c_satmax += satmax;
+        done += (long long) (hi - lo); c_grey += grey; c_negh += negh; c_wrap += wrap; c_satmax += satmax; c_sat1 += sat1; c_hue0 += hue0; c_sat0 += sat0;
         for (int k = 0; k < 6; ++k) c_sect[k] += sect[k];
     });
     R ().cls ("color.uchar-all.grey-axis", c_grey.load ()); R ().cls ("color.uchar-all.negative-hue-wraps", c_negh.load ());
     R ().cls ("color.uchar-all.hue-255-wraps", c_wrap.load ()); R ().cls ("color.uchar-all.saturation-255", c_satmax.load ());
     for (int k = 0; k < 6; ++k) R ().cls ("color.uchar-all.sector" + std::to_string (k), c_sect[k].load ());
+    R ().cls ("color.uchar-all.rgb.smallest-channel-0(saturation exactly 255)", c_sat1.load ()); R ().cls ("color.uchar-all.rgb.r>g==b(hue exactly 0)", c_hue0.load ());
+    R ().cls ("color.uchar-all.hsv.saturation-0(result exactly (v,v,v))", c_sat0.load ());
     R ().add ("states", 2 * done.load ()); R ().add ("evaluations", 2 * done.load ()); R ().add ("transitions", 4 * done.load ());
-    if (complete) R ().stage_done ("all 2^24 unsigned-char triples as rgb and as hsv: Vec3 result == model scaled by 255 and truncated; Color4 result == Vec3 result, alpha unchanged");
+    if (complete) R ().stage_done ("all 2^24 unsigned-char triples as rgb and as hsv: Vec3 result == model scaled by 255 and truncated, exactly representable components (value = largest channel, saturation 0/255, hue 0, s = 0, v = 0, s = 255 top channel) returned exactly; Color4 result == Vec3 result, alpha unchanged");
     else R ().stage_partial (std::to_string (done.load ()) + " of 2^24 triples");
 }
 
@@ -412,6 +592,12 @@ void c17_color_stages ()
     int_color4<short> ("short");
     int_color4<unsigned short> ("unsigned short");
     int_color4<int> ("int");
+    int_exact<unsigned char> ("unsigned char");
+    int_exact<signed char> ("signed char");
+    int_exact<short> ("short");
+    int_exact<unsigned short> ("unsigned short");
+    int_exact<int> ("int");
+    int_exact<unsigned int> ("unsigned int");
     uchar_all ();
     if (R ().stage ("packed-roundtrip"))
     {
